@@ -69,9 +69,10 @@ class ScanEval(SymEval):
                 and r[1].mod.short == 'scanner' and r[1].name != 'scan':
             callee = r[1]
             if self.depth > 6:
-                raise AnalysisError('scanner call chain too deep')
+                return Obj(fresh('call'))     # recursion: not followed (imprecise, undecided)
             args = [self.ev(x, st) for x in e.args]
-            sub = ScanEval(self.model, callee, self.sink, self.depth + 1)
+            is_tail = isinstance(e._parent, ast.Return)
+            sub = ScanEval(self.model, callee, self.sink if is_tail else [], self.depth + 1)
             cst = st.copy()
             params = callee.params[1:] if callee.cls is not None and callee.outer is None else callee.params
             # closures see the variables of the enclosing call
@@ -81,9 +82,15 @@ class ScanEval(SymEval):
             for p, v in zip(params, args):
                 cst.vars[p] = v
             sub.run(callee.body, cst)
-            is_tail = isinstance(e._parent, ast.Return)
             if not is_tail:
-                # value used by the caller: join of what the callee returns (tokens only)
+                # the call's tokens are not returned by next_token; its effect on the scan
+                # position is what all its exits agree on (else unknown)
+                poss = [s2.vars.get('self.pos') for n, v, s2 in sub.ret_states]
+                if poss and all(isinstance(p, Int) and p == poss[0] for p in poss):
+                    st.vars['self.pos'] = poss[0]
+                    st.facts = sub.ret_states[0][2].facts
+                else:
+                    st.vars['self.pos'] = Int(Aff.atom(fresh('call')))
                 vals = [v for n, v, s in sub.ret_states if v is not None]
                 return vals[0] if len(vals) == 1 else Obj(fresh('call'))
             return ('tail', sub.ret_states)
@@ -297,4 +304,34 @@ def sp4(model):
                     r.undec(n, 'positive character class')
                 continue
         r.undec(n, 'pattern shape not recognised')
+    return r
+
+
+def sc5(model):
+    from ..own import Summaries
+    r = RuleResult('SC5', 'no scanned token is discarded: inside the scanner, the result of a '
+                   'method that scans a token is always returned or appended, never dropped (a '
+                   'dropped token means its source text was merged into the surrounding token, '
+                   'e.g. a second comment line hidden inside a comment token, where the LT-SKIP '
+                   'markers are no longer seen)', floor=5)
+    summ = Summaries(model)
+    cls = model.cls('scanner.Scanner')
+    token_methods = {f.qname for f in cls.methods.values() if summ.returns(f) == 'own'}
+    for f in cls.methods.values():
+        for n in ast.walk(f.node):
+            if not isinstance(n, ast.Call):
+                continue
+            rc = model.resolve_call(n)
+            if not (rc and rc[0] == 'func' and rc[1].qname in token_methods):
+                continue
+            p = n._parent
+            if isinstance(p, ast.Expr):
+                r.fail(n, 'the token scanned by %s() is dropped: its text becomes part of the '
+                       'enclosing token (two comment lines in one token hide %%%% LT-SKIP markers)'
+                       % rc[1].name,
+                       witness='an ordinary % comment line directly before %%% LT-SKIP-END')
+            else:
+                r.ok(n, 'token scanned by %s() is %s' % (rc[1].name, type(p).__name__.lower() + 'ed'
+                                                        if isinstance(p, ast.Return) else 'used'),
+                     sample=False)
     return r
